@@ -740,6 +740,12 @@ func runC18(c *engine.Ctx) {
 		}
 		c.Floor(k, 3)
 	}
+
+	// ---- R17 the rendered document belongs to the caller (shared with C16.R25) ----
+	checkPooledEscape(c, "R17")
+
+	// ---- R18 ----
+	checkTotalNumberParsing(c, "R18")
 }
 
 // checkFlagTargets (R9): "the same configuration given through command-line flags yields identical structures". Every
@@ -1231,4 +1237,93 @@ func checkLegacyConversion(c *engine.Ctx, rule string) {
 			"%d fields copied; mismatched: [%s]; common fields never copied: [%s]", len(copied), strings.Join(bad, "; "), strings.Join(missing, ","))
 	}
 	c.Floor(n, 4)
+}
+
+// checkTotalNumberParsing (R18): the textual port-range forms ("1000-2000,3000") are accepted only when each piece is a
+// number as a whole. strconv's conversions are total over the piece (trailing garbage, a second dash, a missing bound
+// are errors); fmt's scanners stop at the first byte that does not fit and report how many verbs matched, so
+// "1000 - 2000" becomes the single port 1000 and "8080/tcp" is accepted. The numbers that reach the result must come
+// from strconv, and no scanner of the fmt family is used in the configuration parsers.
+func checkTotalNumberParsing(c *engine.Ctx, rule string) {
+	c.Rule(rule, "every number stored into a PortsRange by NewPortsRangeSliceFromString, and every number ParseRangeNumbers appends, is the result of strconv.ParseInt/ParseUint/Atoi over the piece; pkg/config and pkg/util/util call no fmt.Sscan*/Fscan* (prefix scanners)")
+	p := c.P
+	n := 0
+	isStrconv := func(o *types.Func) bool {
+		if o == nil || o.Pkg() == nil || o.Pkg().Path() != "strconv" {
+			return false
+		}
+		switch o.Name() {
+		case "ParseInt", "ParseUint", "Atoi":
+			return true
+		}
+		return false
+	}
+	fromStrconv := func(v ssa.Value) bool {
+		src := engine.Provenance(v, engine.ProvOpts{})
+		for o := range src.Calls {
+			if isStrconv(o) {
+				return true
+			}
+		}
+		return false
+	}
+	if f := fn(c, "pkg/config/types.NewPortsRangeSliceFromString"); f != nil {
+		for _, g := range append([]*ssa.Function{f}, allAnon(f)...) {
+			g := g
+			engine.ForEachInstr(g, func(in ssa.Instruction) {
+				st, ok := in.(*ssa.Store)
+				if !ok {
+					return
+				}
+				fv, _ := engine.LoadedField(st.Addr)
+				if fv == nil || fv.Pkg() == nil || !strings.HasSuffix(fv.Pkg().Path(), "/pkg/config/types") {
+					return
+				}
+				switch fv.Name() {
+				case "Single", "Start", "End":
+				default:
+					return
+				}
+				n++
+				c.Check(fromStrconv(st.Val), p.FuncName(g)+">"+fv.Name(), in.Pos(), 1, nil, "PortsRange.%s is a strconv conversion of the whole piece", fv.Name())
+			})
+		}
+	}
+	if f := fn(c, "pkg/util/util.ParseRangeNumbers"); f != nil {
+		k := 0
+		engine.ForEachInstr(f, func(in ssa.Instruction) {
+			call, ok := in.(*ssa.Call)
+			if !ok {
+				return
+			}
+			if b, ok := call.Call.Value.(*ssa.Builtin); !ok || b.Name() != "append" || len(call.Call.Args) < 2 {
+				return
+			}
+			n++
+			k++
+			c.Check(fromStrconv(call.Call.Args[1]), fmt.Sprintf("pkg/util/util.ParseRangeNumbers>append#%d", k), in.Pos(), 1, nil, "appended numbers are strconv conversions of the whole piece (or counted up from them)")
+		})
+	}
+	// prefix scanners
+	for _, f := range p.RepoFuncs() {
+		if f.Pkg == nil {
+			continue
+		}
+		pp := f.Pkg.Pkg.Path()
+		if !strings.HasPrefix(pp, engine.ModPath+"/pkg/config") && pp != engine.ModPath+"/pkg/util/util" {
+			continue
+		}
+		f := f
+		engine.ForEachInstr(f, func(in ssa.Instruction) {
+			call, ok := in.(ssa.CallInstruction)
+			if !ok {
+				return
+			}
+			o := engine.CalleeObj(call)
+			if o != nil && o.Pkg() != nil && o.Pkg().Path() == "fmt" && (strings.HasPrefix(o.Name(), "Sscan") || strings.HasPrefix(o.Name(), "Fscan")) {
+				c.Violate(p.FuncName(f)+">"+o.Name(), in.Pos(), nil, "fmt.%s parses a prefix and reports a count: a literal with trailing or embedded garbage is accepted in truncated form instead of being refused", o.Name())
+			}
+		})
+	}
+	c.Floor(n, 3)
 }
